@@ -55,6 +55,7 @@ JudgeHalt(e) ==
   IN   Chk("c15.order", \A i \in 1..Len(pubs) : pubs[i] = i)
   \* a Halt that has not returned 30 s after everything it could wait for was released
   \cup Chk("c15.halt-never-returns", idx("halt.stuck") = {} /\ Cardinality(rets) = Cardinality(calls))
+  \cup Chk("c15.halted-search-keeps-running", idx("iter.no-exit") = {})
   \cup Chk("c15.halt-depth1", \A r \in rets : E[r].args[2] >= 1)
   \cup Chk("c15.halt-at-least-reported", \A r \in rets : \A d \in pubBefore(callOf(r)) \cup recvBefore(callOf(r)) : E[r].args[2] >= d)
   \cup Chk("c15.halt-completed", \A r \in rets : E[r].args[2] \in storedBefore(r))
